@@ -212,3 +212,135 @@ Proof.
     destruct (iy mod 2 =? 0) eqn:P0; destruct (jx <? ix) eqn:L1; destruct (ix <? jx) eqn:L2; try lia;
       intros H; injection H as <-; destruct (ff =? -1); reflexivity.
 Qed.
+
+(* ------------------------------------------------------------------------------------ *)
+(** * V_j and E_ij as strings, every shape *)
+
+Definition nq (r c : Z) : nat := Z.to_nat (m_nsites r c).
+
+Lemma ravel_some r c x y k : np_ravel2 r c x y = Some k ->
+  0 <= x < r /\ 0 <= y < c /\ k = x * c + y /\ 0 <= k < r * c.
+Proof.
+  unfold np_ravel2. destruct (0 <=? x) eqn:A; destruct (x <? r) eqn:B; destruct (0 <=? y) eqn:C;
+    destruct (y <? c) eqn:D; cbn; try discriminate. intros H; injection H as <-.
+  apply Z.leb_le in A, C. apply Z.ltb_lt in B, D.
+  assert (x * c <= (r - 1) * c) by nia. assert (0 <= x * c) by nia.
+  repeat split; lia.
+Qed.
+
+Lemma ravel_inj r c x y x' y' k :
+  np_ravel2 r c x y = Some k -> np_ravel2 r c x' y' = Some k -> x = x' /\ y = y'.
+Proof.
+  intros H H'. apply ravel_some in H, H'.
+  destruct H as [Hx [Hy [-> _]]], H' as [Hx' [Hy' [E _]]].
+  assert (x = x') by nia. subst. split; [reflexivity|lia].
+Qed.
+
+(** V_j = Z on qubit j, identity elsewhere, q = 0 *)
+Lemma vertex_inv r c x y V : m_vertex r c x y = Some V ->
+  exists k, np_ravel2 r c x y = Some k /\ 0 <= k < m_nsites r c /\
+    pz V = upd (Z.to_nat k) true (falses (nq r c)) /\ px V = falses (nq r c) /\ pq V = 0.
+Proof.
+  unfold m_vertex, m_coord_to_index, obind.
+  destruct (np_ravel2 r c x y) as [k|] eqn:R; [|discriminate].
+  unfold m_vertex_desc, build, mkdesc. cbn [d_args d_q d_sets fold_left].
+  destruct (arg_step _ _ _) as [[z1 x1]|] eqn:A; [|discriminate].
+  apply arg_step_some in A. destruct A as [Ik [-> ->]].
+  intros H; injection H as <-. exists k. cbn [pz px pq]. unfold in_n in Ik.
+  repeat split; try lia; try reflexivity.
+  change (letter_x 3) with false. apply upd_false_falses.
+Qed.
+
+Lemma vertex_wf r c x y V : m_vertex r c x y = Some V -> wfp (nq r c) V /\ pherm V = true.
+Proof.
+  intros H. destruct (vertex_inv _ _ _ _ _ H) as [k [_ [_ [Hz [Hx Hq]]]]].
+  unfold wfp, pherm. rewrite Hz, Hx, Hq, upd_length, falses_length. repeat split.
+Qed.
+
+(** E_ij: X / Y on the two endpoints (x-bit set on both), a letter with x-bit set on the face
+    qubit when there is one, q in {0, 2} *)
+Lemma edge_inv r c ix iy jx jy E : m_edge r c ix iy jx jy = Some E ->
+  exists ii jj ff,
+    is_nn ix iy jx jy = true /\
+    np_ravel2 r c ix iy = Some ii /\ np_ravel2 r c jx jy = Some jj /\
+    m_edge_face r c ix iy jx jy = Some ff /\ (ff = -1 \/ (r * c <= ff /\ ff < m_nsites r c)) /\
+    wfp (nq r c) E /\ (pq E = 0 \/ pq E = 2) /\
+    (forall k, nth k (px E) false =
+       Nat.eqb k (Z.to_nat ii) || Nat.eqb k (Z.to_nat jj) || (negb (ff =? -1) && Nat.eqb k (Z.to_nat ff))).
+Proof.
+  unfold m_edge. destruct (is_nn ix iy jx jy) eqn:NN; [|discriminate]. cbn [negb].
+  unfold m_coord_to_index, obind.
+  destruct (np_ravel2 r c ix iy) as [ii|] eqn:Ri; [|discriminate].
+  destruct (np_ravel2 r c jx jy) as [jj|] eqn:Rj; [|discriminate].
+  destruct (m_edge_face r c ix iy jx jy) as [ff|] eqn:F; [|discriminate].
+  destruct (m_edge_desc ii jj ff ix iy jx jy) as [d|] eqn:D; [|discriminate].
+  intros B. exists ii, jj, ff.
+  destruct (edge_desc_form _ _ _ _ _ _ _ _ D) as [l1 [a [l2 [b [q [s [-> [AB [X1 [X2 [Xs Q]]]]]]]]]]].
+  pose proof (edge_face_range _ _ _ _ _ _ _ F) as FR.
+  pose proof (ravel_some _ _ _ _ _ Ri) as [_ [_ [_ Bi]]].
+  pose proof (ravel_some _ _ _ _ _ Rj) as [_ [_ [_ Bj]]].
+  apply build_two in B; [|lia].
+  destruct B as [Ia [Ib [If [Hq [Lz [Lx [Nx _]]]]]]]. unfold in_n in *.
+  repeat split; auto.
+  - destruct FR as [->|FR]; [left; reflexivity|right]. lia.
+  - rewrite Hq. destruct Q as [-> | ->]; [left|right]; reflexivity.
+  - intros k. rewrite Nx, X1, X2, Xs.
+    destruct (ff =? -1) eqn:Ef; cbn [negb andb]; rewrite ?orb_false_r;
+      destruct AB as [[-> ->]|[-> ->]];
+      destruct (Nat.eqb k (Z.to_nat ii)), (Nat.eqb k (Z.to_nat jj)), (Nat.eqb k (Z.to_nat ff)); reflexivity.
+Qed.
+
+Lemma edge_wf r c ix iy jx jy E : m_edge r c ix iy jx jy = Some E -> wfp (nq r c) E /\ pherm E = true.
+Proof.
+  intros H. destruct (edge_inv _ _ _ _ _ _ _ H) as [ii [jj [ff [_ [_ [_ [_ [_ [W [Q _]]]]]]]]]].
+  split; [exact W|]. unfold pherm. destruct Q as [-> | ->]; reflexivity.
+Qed.
+
+(** E_ji = - E_ij (same letters, q shifted by 2) *)
+Theorem edge_swap r c ix iy jx jy E :
+  m_edge r c ix iy jx jy = Some E -> m_edge r c jx jy ix iy = Some (pneg E).
+Proof.
+  unfold m_edge. destruct (is_nn ix iy jx jy) eqn:NN; [|discriminate]. rewrite is_nn_sym, NN. cbn [negb].
+  unfold m_coord_to_index, obind.
+  destruct (np_ravel2 r c ix iy) as [ii|] eqn:Ri; [|discriminate].
+  destruct (np_ravel2 r c jx jy) as [jj|] eqn:Rj; [|discriminate].
+  rewrite (edge_face_sym r c ix iy jx jy).
+  destruct (m_edge_face r c ix iy jx jy) as [ff|] eqn:F; [|discriminate].
+  destruct (m_edge_desc ii jj ff ix iy jx jy) as [d|] eqn:D; [|discriminate].
+  rewrite (edge_desc_swap _ _ _ _ _ _ _ _ NN D).
+  unfold build. cbn [d_args d_q d_sets].
+  destruct (fold_left (set_step _) _ _) as [[z x]|]; [|discriminate].
+  intros H; injection H as <-. unfold pneg. cbn [pz px pq]. f_equal. f_equal.
+  rewrite Z.mod_mod by lia. rewrite Zplus_mod_idemp_l. reflexivity.
+Qed.
+
+(** {E_ij, V_i} = {E_ij, V_j} = 0 and [E_ij, V_k] = 0 for every other vertex, decided on strings *)
+Theorem edge_vertex_commutation r c ix iy jx jy kx ky E V :
+  m_edge r c ix iy jx jy = Some E -> m_vertex r c kx ky = Some V ->
+  pcommutes E V = negb (((kx =? ix) && (ky =? iy)) || ((kx =? jx) && (ky =? jy))).
+Proof.
+  intros HE HV.
+  destruct (edge_inv _ _ _ _ _ _ _ HE) as [ii [jj [ff [NN [Ri [Rj [_ [FR [[_ Lx] [_ Nx]]]]]]]]]].
+  destruct (vertex_inv _ _ _ _ _ HV) as [k [Rk [Bk [Hz [Hx _]]]]].
+  unfold pcommutes, dotz. rewrite Hz, Hx, dotnat_falses_r.
+  rewrite (dotnat_onehot (px E) (Z.to_nat k) (nq r c) Lx), Nx.
+  pose proof (ravel_some _ _ _ _ _ Ri) as [Bix [Biy [Ei Bi]]].
+  pose proof (ravel_some _ _ _ _ _ Rj) as [Bjx [Bjy [Ej Bj]]].
+  pose proof (ravel_some _ _ _ _ _ Rk) as [Bkx [Bky [_ Bkk]]].
+  assert (Ff : negb (ff =? -1) && Nat.eqb (Z.to_nat k) (Z.to_nat ff) = false).
+  { destruct FR as [->|FR]; [reflexivity|]. apply andb_false_iff. right. apply Nat.eqb_neq. lia. }
+  rewrite Ff, orb_false_r.
+  assert (A : Nat.eqb (Z.to_nat k) (Z.to_nat ii) = (kx =? ix) && (ky =? iy)).
+  { destruct ((kx =? ix) && (ky =? iy)) eqn:T.
+    - apply andb_true_iff in T. destruct T as [T1 T2]. apply Z.eqb_eq in T1, T2. subst kx ky.
+      rewrite Ri in Rk. injection Rk as <-. apply Nat.eqb_refl.
+    - apply Nat.eqb_neq. intros C. assert (Hk : k = ii) by lia. rewrite Hk in Rk.
+      destruct (ravel_inj _ _ _ _ _ _ _ Rk Ri) as [-> ->]. rewrite !Z.eqb_refl in T. discriminate. }
+  assert (B : Nat.eqb (Z.to_nat k) (Z.to_nat jj) = (kx =? jx) && (ky =? jy)).
+  { destruct ((kx =? jx) && (ky =? jy)) eqn:T.
+    - apply andb_true_iff in T. destruct T as [T1 T2]. apply Z.eqb_eq in T1, T2. subst kx ky.
+      rewrite Rj in Rk. injection Rk as <-. apply Nat.eqb_refl.
+    - apply Nat.eqb_neq. intros C. assert (Hk : k = jj) by lia. rewrite Hk in Rk.
+      destruct (ravel_inj _ _ _ _ _ _ _ Rk Rj) as [-> ->]. rewrite !Z.eqb_refl in T. discriminate. }
+  rewrite A, B. destruct (_ || _); reflexivity.
+Qed.
